@@ -37,6 +37,14 @@ def run(ctx):
             for entry in ("universal", "legacynlp"):
                 ties.append(dict(entry=entry, limit=lim, nlp=True, fuzzy=False, thr=0, ponly=False, pboost=False,
                                  allplat=False, plats=[], nocross=False, boost=False, query="lex", corpus="bigtie", prime="none"))
+    # databases that do not come from the YAML loader (literal command list, commands installed at run time, the built-in
+    # fallback): the long-lived object has answered many queries, the re-built copy none - both must answer alike
+    for corpus in ("lit", "updated", "fallback"):
+        for raw in ("find files", "list files", "find item", "delete item", "show item question", "frobnicate widget", "copy files",
+                    "search text in files", "show running process", "list directory"):
+            for entry, nlp in (("universal", True), ("universal", False), ("cached", True), ("legacynlp", True), ("legacyoptions", False)):
+                ties.append(dict(entry=entry, limit=rnd.choice([3, 5, 10]), nlp=nlp, fuzzy=False, thr=0, ponly=False, pboost=False,
+                                 allplat=True, plats=[], nocross=False, boost=False, query="raw", raw=raw, corpus=corpus, prime="none"))
     shipped = shipped_scenarios(rnd, 40 if q else 400)
     tr, info, ok, rej = engine.run_cases(ctx, base + ties + shipped, ["C02"], reps=6 if q else 25)
     for x in rej:
